@@ -95,7 +95,7 @@ structure CL where
   esc : Bool := false
   inComment : Bool := false
   started : Bool := false
-  /-- the code points written to the strings.Builder -/
+  /-- the code points written to the strings.Builder, last one first -/
   sb : List Nat := []
   pos : Nat := 0
   deriving Repr
@@ -108,12 +108,12 @@ def collectLine (escc : Nat) : List Rune → CL → CL × List Rune
     else if s.inComment then collectLine escc rs { s with pos := s.pos + r.sz }
     else if s.esc && r.cp == 13 then collectLine escc rs { s with pos := s.pos + r.sz }
     else if s.esc && r.cp == 10 then collectLine escc rs { s with esc := false, started := false, pos := s.pos + r.sz }
-    else if s.esc then collectLine escc rs { s with esc := false, sb := s.sb ++ [escc, r.cp], pos := s.pos + encLen escc + r.sz }
+    else if s.esc then collectLine escc rs { s with esc := false, sb := r.cp :: escc :: s.sb, pos := s.pos + encLen escc + r.sz }
     else if r.cp == escc then collectLine escc rs { s with esc := true, started := true, pos := s.pos + r.sz }
     else if r.cp == 10 then (s, r :: rs)
     else if !s.started && r.cp == 35 then collectLine escc rs { s with inComment := true, pos := s.pos + r.sz }
-    else if !s.started then collectLine escc rs { s with started := !isSpace r.cp, sb := s.sb ++ [r.cp], pos := s.pos + r.sz }
-    else collectLine escc rs { s with sb := s.sb ++ [r.cp], pos := s.pos + r.sz }
+    else if !s.started then collectLine escc rs { s with started := !isSpace r.cp, sb := r.cp :: s.sb, pos := s.pos + r.sz }
+    else collectLine escc rs { s with sb := r.cp :: s.sb, pos := s.pos + r.sz }
 
 inductive Kind | error | comment | instruction | label | arg | env | eof
   deriving Repr, DecidableEq
@@ -192,11 +192,11 @@ def lexAll (escc : Nat) (rs : List Rune) (pos : Nat) : List Item :=
       match _hc : consumeWS rest pos1 with
       | (rs2, pos2) =>
         match _hl : collectLine escc rs2 { pos := pos2 } with
-        | (s, rs3) => ⟨.comment, s.sb, s.pos⟩ :: lexAll escc rs3 s.pos
+        | (s, rs3) => ⟨.comment, s.sb.reverse, s.pos⟩ :: lexAll escc rs3 s.pos
     else if _hlet : isLetter r.cp then
       match _hl : collectLine escc (r :: rest) { pos := pos1 } with
       | (s, rs2) =>
-        match instructionItem s.sb s.pos with
+        match instructionItem s.sb.reverse s.pos with
         | none => [lostError]
         | some it => it :: lexAll escc rs2 s.pos
     else [lostError]
